@@ -11,11 +11,12 @@
 //! [`BufWriter`]: https://doc.rust-lang.org/std/io/struct.BufWriter.html
 
 use rio_api::formatter::TriplesFormatter;
-use rio_api::model::{Literal, Term, Triple};
+use rio_api::model::{BlankNode, Literal, Subject, Term, Triple};
 use rio_xml::RdfXmlFormatter;
 use sophia_api::serializer::{Stringifier, TripleSerializer};
 use sophia_api::source::{SinkError, StreamResult, TripleSource};
 use sophia_rio::serializer::rio_format_triples;
+use std::borrow::Cow;
 use std::io;
 
 /// RDF/XML serializer configuration.
@@ -101,7 +102,8 @@ where
 
 /// A wrapper around [`RdfXmlFormatter`],
 /// failing on the triples that RDF/XML can not represent
-/// (which [`RdfXmlFormatter`] would blindly write, producing an invalid document).
+/// (which [`RdfXmlFormatter`] would blindly write, producing an invalid document),
+/// and making blank node labels fit for `rdf:nodeID`.
 struct CheckedFormatter<W: io::Write>(RdfXmlFormatter<W>);
 
 impl<W: io::Write> TriplesFormatter for CheckedFormatter<W> {
@@ -126,7 +128,30 @@ impl<W: io::Write> TriplesFormatter for CheckedFormatter<W> {
                 return Err(unsupported(format!("predicate {}", triple.predicate)));
             }
         }
-        self.0.format(triple)
+        let (s_id, o_id);
+        let mut triple = *triple;
+        if let Subject::BlankNode(bnode) = triple.subject {
+            s_id = node_id(bnode.id);
+            triple.subject = BlankNode { id: &s_id }.into();
+        }
+        if let Term::BlankNode(bnode) = triple.object {
+            o_id = node_id(bnode.id);
+            triple.object = BlankNode { id: &o_id }.into();
+        }
+        self.0.format(&triple)
+    }
+}
+
+/// Convert a blank node label into a valid `rdf:nodeID`, i.e. an XML `NCName`.
+///
+/// The only labels that are not already `NCName`s are those starting with a digit.
+/// They are prefixed with `_`, and so are the labels starting with `_`,
+/// so that distinct labels are always converted to distinct node IDs.
+fn node_id(label: &str) -> Cow<'_, str> {
+    if label.starts_with(|c: char| c == '_' || c.is_ascii_digit()) {
+        Cow::Owned(format!("_{label}"))
+    } else {
+        Cow::Borrowed(label)
     }
 }
 
